@@ -2,6 +2,14 @@
 # writes seeded/<id>/meta.json from run.json (produced by seedtest.sh) + the hand-written "needs" text
 import json, sys, os
 NEEDS = {
+ "C03-e": "Failover only: recentlyFailed moved into doBuild, so a cached failure falls into the 'build failed, serve stale' path: stale (even too-stale) value returned with nil error although a failure is cached (needs failure cache on, cached failure, expired entry)",
+ "C06-e": "recentlyFailed reads the failure cache with SkipRead stripped from the context: a Get with SkipRead after a failed build is answered with the remembered error instead of rebuilding",
+ "C09-e": "sharded backends' Delete compares the key under the read lock and deletes by hash under the write lock without re-checking: a colliding key written in between is removed (needs an xxhash64 collision and that interleaving)",
+ "C10-e": "PrepareRead tests E > 0 instead of E != 0: an expiry instant before 1970 (negative E, TTL below about -57 years) is served as never expiring",
+ "C11-e": "merged memory-overflow check lost the 'limit == 0 means disabled' guard for HeapInUseSoftLimit: with only SysMemSoftLimit configured every cleanup cycle evicts although no limit is exceeded",
+ "C12-e": "LRU timestamp only stored when at least 1s newer than the recorded one: an entry served again within a second keeps its old rank and is evicted before entries served earlier",
+ "C17-e": "Invalidate checks ctx.Err() before each callback (after lastRun was updated): an accepted call with a cancelled context runs no or only some callbacks and returns the context error",
+ "C18-e": "TraitOf.PrepareRead fast path for never-expiring entries under the default strategy returns before counting cache_hit (generic backend, UnlimitedTTL)",
  "C01-d": "Get's release closure captures the caller's key slice instead of the private copy: a finished background build deletes the key lock of whatever key the caller's buffer now holds (needs background mode, stale value, caller rewriting the buffer; overlapping builds need a third Get)",
  "C02-d": "FailoverOf waiter branch returns the zero value read alongside the expiry error instead of the stale value (needs a build in flight and a waiter that reads an expired, servable entry)",
  "C04-d": "ctxSync skips detachedContext when the caller's context has no deadline: a cancel-only context cancelled after Get returned reaches the background build",
